@@ -176,23 +176,18 @@ func (c *clientHelloConn) Read(b []byte) (n int, err error) {
 		return // need to read more bytes for header
 	}
 
-	// read the header bytes
-	hdr := make([]byte, 5)
-	_, err = io.ReadFull(c.buf, hdr)
-	if err != nil {
-		return // this would be highly unusual and sad
-	}
+	// peek at the header bytes; they have to stay in the buffer, because
+	// the rest of the record may only arrive with a later Read, which
+	// starts over from here
+	hdr := c.buf.Bytes()[:5]
 
-	// get length of the ClientHello message and read it
+	// get length of the ClientHello message and copy it out
 	length := int(uint16(hdr[3])<<8 | uint16(hdr[4]))
-	if c.buf.Len() < length {
+	if c.buf.Len() < 5+length {
 		return // need to read more bytes
 	}
 	hello := make([]byte, length)
-	_, err = io.ReadFull(c.buf, hello)
-	if err != nil {
-		return
-	}
+	copy(hello, c.buf.Bytes()[5:5+length])
 	bufpool.Put(c.buf) // buffer no longer needed
 
 	// parse the ClientHello and store it in the map
